@@ -504,11 +504,22 @@ func (m *machine) run() {
 // softEnd reports whether the server ended the connection, without success, exactly on this
 // request; the replies up to the request are then checked and the walk is over.
 func (m *machine) softEnd(start int, desc, why string) bool {
-	if m.o.Consumed == m.pos && !m.o.HitEOF && !m.o.Success {
+	if m.o.Consumed == m.pos && !m.o.HitEOF && !m.o.Success && !m.repliedAt(m.pos) {
 		m.compareReplies(start, true)
 		m.rep.Terminal = "soft-end"
 		m.tag("soft-end")
 		return true
+	}
+	return false
+}
+
+// repliedAt reports whether the server wrote a packet (other than a banner) after it had
+// read exactly n packets.
+func (m *machine) repliedAt(n int) bool {
+	for _, r := range m.o.Replies {
+		if r.After == n && len(r.Packet) > 0 && r.Packet[0] != MsgUserAuthBanner {
+			return true
+		}
 	}
 	return false
 }
